@@ -6,11 +6,12 @@ package simdisk
 
 import (
 	"fmt"
+	"io"
 	"os"
-	"sync"
 	"path/filepath"
 	"sort"
 	"strings"
+	"sync"
 	"syscall"
 )
 
@@ -62,6 +63,47 @@ type Fault struct {
 	// the surviving prefix as a fraction of the data.
 	NthWrite     int
 	KeepPermille int
+	// ErrStyle selects which error value the faulty call returns (what
+	// real systems hand back differs, and code that inspects errors by
+	// identity or type can tell them apart): 0 the usual *os.PathError
+	// (EIO, or ENOSPC for the effect-free write failure); 1 another
+	// errno (EACCES for reads and listings, EDQUOT / EROFS for writes);
+	// 2 io.ErrShortWrite / io.ErrUnexpectedEOF as ioutil.WriteFile and
+	// io.ReadFull produce them; 3 the same wrapped with %w.
+	ErrStyle int
+}
+
+// faultErr builds the error a faulty call returns.
+func faultErr(op byte, p string, f Fault) error {
+	switch f.ErrStyle {
+	case 1:
+		switch {
+		case op == 'W' && f.Kind == WriteENOSPC:
+			return pathErr("write", p, syscall.EDQUOT)
+		case op == 'W':
+			return pathErr("write", p, syscall.EROFS)
+		case op == 'G':
+			return pathErr("open", p, syscall.EACCES)
+		}
+		return pathErr("open", p, syscall.EACCES)
+	case 2:
+		if op == 'W' {
+			return io.ErrShortWrite
+		}
+		return io.ErrUnexpectedEOF
+	case 3:
+		if op == 'W' {
+			return fmt.Errorf("write %s: %w", p, io.ErrShortWrite)
+		}
+		return fmt.Errorf("read %s: %w", p, io.ErrUnexpectedEOF)
+	}
+	switch {
+	case op == 'W' && f.Kind == WriteENOSPC:
+		return pathErr("write", p, syscall.ENOSPC)
+	case op == 'W':
+		return pathErr("write", p, syscall.EIO)
+	}
+	return pathErr("read", p, syscall.EIO)
 }
 
 // CrashPanic is the panic value that aborts an operation at a crash.
@@ -277,7 +319,7 @@ func (m *Mem) ReadFile(p string) ([]byte, error) {
 	r := m.Resolve(p)
 	a := Access{Op: 'R', Path: p, Resolved: r}
 	if has && f.Kind == ReadEIO {
-		err := pathErr("read", p, syscall.EIO)
+		err := faultErr('R', p, f)
 		a.Fault, a.Err = f.Kind, err.Error()
 		m.record(a)
 		return nil, err
@@ -317,7 +359,7 @@ func (m *Mem) ReadFile(p string) ([]byte, error) {
 		if keep > len(data) {
 			keep = len(data)
 		}
-		err := pathErr("read", p, syscall.EIO)
+		err := faultErr('R', p, f)
 		a.Fault, a.Err, a.N, a.Kept = f.Kind, err.Error(), keep, keep
 		m.record(a)
 		return append([]byte(nil), data[:keep]...), err
@@ -338,7 +380,7 @@ func (m *Mem) WriteFile(p string, data []byte) error {
 	r := m.Resolve(p)
 	a := Access{Op: 'W', Path: p, Resolved: r, N: len(data), Data: append([]byte(nil), data...)}
 	if has && f.Kind == WriteENOSPC {
-		err := pathErr("write", p, syscall.ENOSPC)
+		err := faultErr('W', p, f)
 		a.Fault, a.Err = f.Kind, err.Error()
 		m.record(a)
 		return err
@@ -389,7 +431,7 @@ func (m *Mem) WriteFile(p string, data []byte) error {
 			m.Files[r] = a.Data
 			a.Kept = len(data)
 		}
-		err := pathErr("write", p, syscall.EIO)
+		err := faultErr('W', p, f)
 		a.Fault, a.Err = f.Kind, err.Error()
 		m.record(a)
 		if f.Kind == Crash {
@@ -413,6 +455,9 @@ func (m *Mem) FindWithPrefixAndSuffix(prefix, suffix string) ([]string, error) {
 	a := Access{Op: 'G', Path: prefix + "*" + suffix}
 	if has && f.Kind == GlobEIO {
 		err := pathErr("readdirent", prefix, syscall.EIO)
+		if f.ErrStyle != 0 {
+			err = faultErr('G', prefix, f)
+		}
 		a.Fault, a.Err = f.Kind, err.Error()
 		m.record(a)
 		return nil, err
